@@ -551,7 +551,7 @@ func (c *c03) judgeDecoded(s *Subject, v *ref.Value, g TarsStruct, rerr error, p
 
 type c03unit struct {
 	s      *Subject
-	phase  string // "A" small-lattice products, "B" full lattice of one member
+	phase  string // "A" small-lattice products, "B" full lattice of one member, "L" long containers in one member
 	base   int    // 0 all-default, 1 all-non-default
 	k      int    // phase A: deviation bound
 	first  int    // phase A: -2 whole product; -1 the baseline only; i: products whose lowest deviating member is i
@@ -633,6 +633,61 @@ func deviations(base *ref.Value, alts [][]*ref.Value, k, first int, visit func(v
 }
 
 // plan lays the enumeration out as independent units.
+// longContainers: vectors and maps of 513 and 1000 elements (past every small power-of-two limit a
+// decoder might keep per reader, e.g. a nesting counter that is not wound back), elements cycling
+// through the element type's small lattice, map keys generated distinct.
+func longContainers(t *ref.Type) []*ref.Value {
+	var out []*ref.Value
+	switch {
+	case t.Kind == ref.KVector && !t.IsBytes():
+		el := ref.Lattice(t.Elem, ref.Small)
+		if len(el) == 0 {
+			return nil
+		}
+		for _, n := range []int{513, 1000} {
+			v := &ref.Value{Kind: ref.KVector}
+			for i := 0; i < n; i++ {
+				v.Elems = append(v.Elems, el[(i+1)%len(el)].Clone())
+			}
+			out = append(out, v)
+		}
+		// constant vectors: 1-3 copies of every value of the element's small lattice (the lattice's own
+		// vectors cycle through the element values, so e.g. "all elements encode in one byte" never occurs)
+		for _, x := range el {
+			for n := 1; n <= 3; n++ {
+				v := &ref.Value{Kind: ref.KVector}
+				for i := 0; i < n; i++ {
+					v.Elems = append(v.Elems, x.Clone())
+				}
+				out = append(out, v)
+			}
+		}
+	case t.Kind == ref.KMap:
+		var key func(i int) *ref.Value
+		switch {
+		case t.Key.Kind == ref.KString:
+			key = func(i int) *ref.Value { return ref.VString(fmt.Sprintf("key%04d", i)) }
+		case t.Key.Kind.IsInteger() && t.Key.Kind != ref.KBool && t.Key.Kind != ref.KInt8 && t.Key.Kind != ref.KUint8 && t.Key.Kind != ref.KEnum:
+			key = func(i int) *ref.Value { return ref.VInt(t.Key.Kind, int64(i)) }
+		default:
+			return nil
+		}
+		vl := ref.Lattice(t.Val, ref.Small)
+		if len(vl) == 0 {
+			return nil
+		}
+		for _, n := range []int{513, 1000} {
+			v := &ref.Value{Kind: ref.KMap}
+			for i := 0; i < n; i++ {
+				v.Keys = append(v.Keys, key(i))
+				v.Vals = append(v.Vals, vl[(i+1)%len(vl)].Clone())
+			}
+			out = append(out, v)
+		}
+	}
+	return out
+}
+
 func (c *c03) plan(subjects []*Subject, kmax int, budget float64) (units []c03unit, kBy map[int]int) {
 	kBy = map[int]int{}
 	lenCache := map[*ref.Type]int{}
@@ -668,6 +723,9 @@ func (c *c03) plan(subjects []*Subject, kmax int, budget float64) (units []c03un
 				continue // the single member's lattice was walked from baseline 0
 			}
 			for i, m := range s.Def.Members {
+				if bi == 0 && len(longContainers(m.Type)) > 0 {
+					units = append(units, c03unit{s: s, phase: "L", base: bi, member: i})
+				}
 				if m.Type.Kind == ref.KStruct {
 					continue
 				}
@@ -746,6 +804,15 @@ func (c *c03) runUnit(u c03unit, st *stats) {
 			note(cur)
 		})
 		st.n["units_B"]++
+	case "L":
+		cur := base.Clone()
+		for _, x := range longContainers(s.Def.Members[u.member].Type) {
+			cur.Elems[u.member] = x
+			st.n["cases_long_containers"]++
+			c.checkValue(s, cur, false, st)
+			note(cur)
+		}
+		st.n["units_L"]++
 	}
 	st.n["distinct_values"] += uint64(len(distinct))
 }
